@@ -229,6 +229,10 @@ def run(p, report, tier):
     report.rule("R10.6", "inside the per-instance simulation loop the committed attributes that were copied into "
                 "running locals are not read again, and a simulation copy made by a converting constructor "
                 "(list(x), deque(x)) preserves the kind of container the attribute is created as", floor=8)
+    report.rule("R10.7", "the indicator by which the simulated spent-estimate advances is the condition under which the "
+                "label is granted in that iteration (same test / same recorded value, not rebound in between), so what "
+                "the simulation accounts for is what update later commits", floor=6)
+    report.analysed["accounting_sites"] = check_accounting_is_granting(p, report)
     report.rule("R10.4", "queried indices are built only by appending the enumerate counter at most once per "
                 "iteration, by np.where(mask)[0], or are the budget manager's own result", floor=13)
     report.rule("R10.5", "if the simulation draws from self.random_state_ under get_state/set_state, update advances "
@@ -465,7 +469,121 @@ def check_transitions(p, report, pairs, rule):
                        f"{q.file}:{L.lineno}", ok,
                        detail=("operators agree: " + "; ".join(f"{o} {r} [{pl}]" for o, r, pl in sorted(sim))) if ok else
                        ("simulated only: " + str(sorted(miss)) + " committed only: " + str(sorted(extra))))
+            # conditions under which an indicator-guarded transition runs
+            from ..astutil import inline_temporaries
+            committed = set()
+            for u in ups:
+                for x in ast.walk(u.node):
+                    if isinstance(x, ast.Attribute) and isinstance(x.ctx, ast.Store) and isinstance(x.value, ast.Name) \
+                            and x.value.id == "self":
+                        committed.add(x.attr)
+            qn = inline_temporaries(q.node, keep=lambda a: isinstance(a.value, ast.Attribute)
+                                    and isinstance(a.value.value, ast.Name) and a.value.value.id == "self"
+                                    and a.value.attr in committed)
+            Ln = c04.instance_loop(qn)
+            if Ln is None:
+                continue
+            sctx = transition_contexts(qn, {tmp}, c04.seeds_of(qn), within=Ln)
+            cctx = {}
+            for u in ups:
+                for k, v in transition_contexts(inline_temporaries(u.node), {"self." + attr}, {}).items():
+                    cctx.setdefault(k, set()).update(v)
+            for k in sorted(set(sctx) & set(cctx)):
+                same = sctx[k] == cctx[k]
+                report.add(rule, ent, f"conditions of `{k[0]} {k[1]}` on `{tmp}` (simulation) vs self.{attr} (commit)",
+                           f"{q.file}:{L.lineno}", same,
+                           detail="both run under " + str([sorted(x) for x in sctx[k]]) if same else
+                           f"simulated under {[sorted(x) for x in sctx[k]]} but committed under {[sorted(x) for x in cctx[k]]}: "
+                           "update adapts the state for instances the simulation did not (or vice versa), so the result "
+                           "depends on the chunking")
 
+
+
+def _indicator_of(stmt, tmp):
+    """The per-instance indicator added to the running estimate `tmp` by
+    `tmp = <f(tmp)> + E` / `tmp += E`, else None."""
+    if isinstance(stmt, ast.AugAssign) and isinstance(stmt.op, ast.Add) and isinstance(stmt.target, ast.Name) \
+            and stmt.target.id == tmp:
+        return stmt.value
+    if isinstance(stmt, ast.Assign) and len(stmt.targets) == 1 and isinstance(stmt.targets[0], ast.Name) \
+            and stmt.targets[0].id == tmp and isinstance(stmt.value, ast.BinOp) and isinstance(stmt.value.op, ast.Add):
+        l, r = stmt.value.left, stmt.value.right
+        if tmp in names_in(l) and tmp not in names_in(r):
+            return r
+        if tmp in names_in(r) and tmp not in names_in(l):
+            return l
+    return None
+
+
+def check_accounting_is_granting(p, report, rule="R10.7"):
+    """The indicator by which the simulated spent-estimate advances is the
+    condition under which the label is granted (index appended / record
+    stored) in the same iteration."""
+    from ..astutil import inline_temporaries, FuncTree
+    n = 0
+    for ci, f in c04.entities(p):
+        committed = set()
+        for u in update_chain(p, ci):
+            for x in ast.walk(u.node):
+                if isinstance(x, ast.Attribute) and isinstance(x.ctx, ast.Store) and isinstance(x.value, ast.Name) \
+                        and x.value.id == "self":
+                    committed.add(x.attr)
+        fnode = inline_temporaries(f.node, keep=lambda a: isinstance(a.value, ast.Attribute)
+                                   and isinstance(a.value.value, ast.Name) and a.value.value.id == "self"
+                                   and a.value.attr in committed)
+        L = c04.instance_loop(fnode)
+        if L is None:
+            continue
+        counter = L.target.elts[0].id
+        seeds = c04.seeds_of(fnode)
+        gr = c04.grants(L, counter)
+        if not gr:
+            continue
+        tree = FuncTree(fnode)
+        ent = f"{ci.name}.{f.name}"
+        for st in ast.walk(L):
+            for tmp in seeds:
+                E = _indicator_of(st, tmp) if isinstance(st, (ast.Assign, ast.AugAssign)) else None
+                if E is None:
+                    continue
+                etxt = ast.unparse(E)
+                if isinstance(E, ast.Constant):
+                    continue        # observation counters (+= 1)
+                verdicts = []
+                for kind, g, arr in gr:
+                    if kind == "store" and isinstance(E, ast.Subscript) and arr != base_name(E):
+                        continue    # a store into another per-instance array (e.g. the utilities)
+                    if kind == "store":
+                        tgt = ast.unparse(g.targets[0])
+                        ok = etxt == tgt or etxt == ast.unparse(g.value)
+                        verdicts.append((ok, f"record `{norm_stmt(g, 50)}`"))
+                    else:
+                        cond = None
+                        for (s_, owner, field, idx) in tree.ancestors(g):
+                            if owner is L:
+                                break
+                            if isinstance(owner, ast.If) and field == "body":
+                                cond = owner.test
+                                break
+                        if cond is None:
+                            verdicts.append((False, "unconditional grant"))
+                            continue
+                        ctxt = ast.unparse(cond)
+                        ok = ctxt == etxt or (isinstance(E, ast.IfExp) and False)
+                        if ok and isinstance(E, ast.Name):
+                            # the name must not be rebound between the two statements
+                            lo, hi = sorted((st.lineno, g.lineno))
+                            ok = not any(isinstance(x, ast.Name) and x.id == E.id and isinstance(x.ctx, ast.Store)
+                                         and lo < x.lineno < hi for x in ast.walk(L))
+                        verdicts.append((ok, f"grant under `{norm_stmt(cond, 50)}`"))
+                good = all(v for v, _ in verdicts)
+                n += 1
+                report.add(rule, ent, f"estimate advanced by the grant indicator in `{norm_stmt(st, 70)}`", f"{f.file}:{st.lineno}",
+                           good, detail="; ".join(w for _, w in verdicts) if good else
+                           f"the running estimate advances by `{norm_stmt(E, 40)}` but the label is granted differently "
+                           f"({'; '.join(w for v, w in verdicts if not v)}): simulation and the committed update disagree "
+                           "within a chunk")
+    return n
 
 
 def wellformed_indices(fnode, name):
@@ -507,3 +625,79 @@ def wellformed_indices(fnode, name):
         if any("a2" in s.tokens for s in (ca.out or [])):
             return False, "the counter can be appended twice in one iteration (indices not strictly increasing)"
     return True, "append-only list of the enumerate counter (<= 1 per iteration) / np.where(mask)[0] / manager result"
+
+
+# ---------------------------------------------------------------------------
+# Contexts of guarded transitions (threshold adaptation): the conditions
+# under which `theta *= 1 -/+ s` runs in the simulation are the conditions
+# under which update commits it.
+def _norm_test(test, branch, seed_map, tails):
+    import copy as _c
+    t = _c.deepcopy(test)
+    neg = False
+    while isinstance(t, ast.UnaryOp) and isinstance(t.op, ast.Not):
+        t = t.operand
+        neg = not neg
+
+    class R(ast.NodeTransformer):
+        def visit_Subscript(self, n):
+            self.generic_visit(n)
+            if isinstance(n.value, ast.Name) and n.value.id in tails and isinstance(n.slice, ast.UnaryOp) \
+                    and isinstance(n.slice.op, ast.USub) and isinstance(n.slice.operand, ast.Constant) \
+                    and n.slice.operand.value == 1:
+                return self.visit(_c.deepcopy(tails[n.value.id]))
+            return n
+
+        def visit_Name(self, n):
+            if n.id in seed_map and isinstance(n.ctx, ast.Load):
+                return ast.Attribute(value=ast.Name(id="self", ctx=ast.Load()), attr=seed_map[n.id], ctx=ast.Load())
+            return n
+    t = R().visit(t)
+    while isinstance(t, ast.UnaryOp) and isinstance(t.op, ast.Not):
+        t = t.operand
+        neg = not neg
+    # one orientation for comparisons: a > b  ==  b < a
+    if isinstance(t, ast.Compare) and len(t.ops) == 1 and isinstance(t.ops[0], (ast.Gt, ast.GtE)):
+        t = ast.Compare(left=t.comparators[0], ops=[ast.Lt() if isinstance(t.ops[0], ast.Gt) else ast.LtE()],
+                        comparators=[t.left])
+    pos = (branch == "body") != neg
+    return (" ".join(ast.unparse(t).split()), "T" if pos else "F")
+
+
+def transition_contexts(fnode, targets, seed_map, within=None):
+    """{(op, rhs, polarity): set(frozenset(contexts))} for indicator-guarded
+    updates of `targets` (on the function with temporaries substituted back)."""
+    tree = FuncTree(fnode)
+    region = within if within is not None else fnode
+    tails = {}
+    for n in ast.walk(region):
+        if isinstance(n, ast.Expr) and isinstance(n.value, ast.Call) and isinstance(n.value.func, ast.Attribute) \
+                and n.value.func.attr == "append" and isinstance(n.value.func.value, ast.Name) and n.value.args:
+            nm = n.value.func.value.id
+            tails[nm] = None if nm in tails else n.value.args[0]
+    tails = {k: v for k, v in tails.items() if v is not None}
+    out = {}
+    for n in ast.walk(region):
+        if not isinstance(n, (ast.AugAssign, ast.Assign)):
+            continue
+        tg = n.target if isinstance(n, ast.AugAssign) else (n.targets[0] if len(n.targets) == 1 else None)
+        b = _tname(tg) if tg is not None else None
+        if b not in targets:
+            continue
+        pol = polarity(tree, n, region)
+        if pol == "-":
+            continue
+        op = (type(n.op).__name__ + "=") if isinstance(n, ast.AugAssign) else "="
+        rhs = norm_rhs(inline_hoisted(fnode, n.value, targets), {b})
+        ctx = []
+        first = True
+        for (s_, owner, field, idx) in tree.ancestors(n):
+            if owner is region:
+                break
+            if isinstance(owner, ast.If) and field in ("body", "orelse"):
+                if first:
+                    first = False      # the indicator test itself (polarity)
+                    continue
+                ctx.append(_norm_test(owner.test, field, seed_map, tails))
+        out.setdefault((op, rhs, pol), set()).add(frozenset(ctx))
+    return out
